@@ -211,7 +211,8 @@ CLAIMED["C02"] = dict(
          "CHALLENGE_RESP with the token of the temp-pool entry (C02_promote_only_on_proof, for every datagram, state and message list); "
          "at the level of the server loop a connect event for an address is produced only while handling such a datagram from that very "
          "address against the session key and token of its half-open entry, and by nothing else in an iteration "
-         "(C02_loop_connect_only_on_proof, C02_loop_connect_from_datagram); "
+         "(C02_loop_connect_only_on_proof, C02_loop_connect_from_datagram); over every history of operations a server-side connection that "
+         "holds a session key keeps exactly that key - no datagram, sealed client hellos included, re-keys it (C02_server_key_never_changes); "
          "under the explicit honest-party laws (signature verifies, ECDH agrees, encodings round-trip) both ends hold the same key and "
          "token, the client is CONNECTED and the server promotes exactly once (C02_honest_agree). Model tied to connection.py/context.py "
          "by recorded differentials of real three-way handshakes (real P-256/ECDSA/ECDH/AES-GCM) under 14 attack scripts, with an "
